@@ -100,6 +100,38 @@ def norm2(v):
     return sum(sq(c) for c in v)
 
 
+class _InlineAll:
+    """Frame contract for real code run from a postcondition (second run of a carrier, delayed specifier values)."""
+
+    inline_all = True
+    inline = set()
+    loops = {}
+    env = {}
+    assert_mode = "raise"
+    unroll = 0
+    ghost_inst = {}
+    short = "post"
+    target = "post"
+    _is_inline_view = True
+
+    def inlines(self, q):
+        return False  # contracts of callees (normalizeAngle) are used where they exist, everything else is interpreted
+
+    def inline_view(self):
+        return self
+
+
+def call_real(I, f, args, kwargs=None):
+    """Interpret a repository function / closure / bound method (real code) from a postcondition."""
+    from pyvc.interp import BoundMethod
+
+    if isinstance(f, BoundMethod):
+        f, args = f.func, [f.self_obj] + list(args)
+    if isinstance(f, BuiltinFn):
+        return f.fn(*args, **(kwargs or {}))
+    return I.run_function(f, list(args), kwargs or {}, _InlineAll())
+
+
 def input_real(eng, name, lo=None, hi=None):
     v = eng.fresh_real(name)
     if lo is not None:
@@ -171,6 +203,8 @@ def _local(orientation, vec):
 def register(reg):
     G.install(reg)
     register_vector_algebra(reg)
+    register_directional(reg)
+    register_facing(reg)
 
 
 def _vec_contract(reg, method, params, post, replay, key=None, raises=(), requires=(), setup=None):
@@ -264,7 +298,7 @@ def register_vector_algebra(reg):
         det = a[0] * (b[1] * c[2] - b[2] * c[1]) - a[1] * (b[0] * c[2] - b[2] * c[0]) + a[2] * (b[0] * c[1] - b[1] * c[0])
         check("right_handed", det == dot(c, c))
         f = I.find_method(env.vars["self"].cls, "cross")
-        back = I.run_function(f, [env.vars["other"], env.vars["self"]], {}, None)
+        back = call_real(I, f, [env.vars["other"], env.vars["self"]])
         check("anti_symmetric", eq3(co(back), [-x for x in c]))
 
     def replay_cross(inputs, clause):
@@ -518,3 +552,664 @@ def register_vector_algebra(reg):
             return f"{a!r}.sphericalCoordinates() = {r!r}, expected {want}"
 
     _vec_contract(reg, "sphericalCoordinates", dict(self=VT()), post_spherical, replay_spherical)
+
+
+# =================================================================================================
+# trusted stubs for the book-keeping layers around the geometric carriers (coercion, specifier records, ego)
+
+WORLD = {}  # per-path holder: ego object etc. (filled by the setup of each contract)
+
+
+def is_orientation(v):
+    return isinstance(v, PObj) and isinstance(v.cls, ClassVal) and v.cls.full == f"{V}:Orientation"
+
+
+def class_name(v):
+    return v.cls.name if isinstance(v, PObj) and isinstance(v.cls, ClassVal) else None
+
+
+def is_num(v):
+    return isinstance(v, (int, float, SV)) and not isinstance(v, bool) and not (isinstance(v, SV) and z3.is_bool(v.e))
+
+
+def install_veneer_stubs(reg):
+    if getattr(reg, "_c07_stubs", False):
+        return
+    reg._c07_stubs = True
+    from pyvc import builtins_model as bm
+
+    def has_method(I, thing, name):
+        return isinstance(thing, PObj) and isinstance(thing.cls, ClassVal) and I.find_method(thing.cls, name) is not None
+
+    def type_name(ty):
+        if isinstance(ty, ClassVal):
+            return ty.name
+        if isinstance(ty, BuiltinFn) and hasattr(ty, "pytype"):
+            return ty.pytype.__name__
+        return getattr(ty, "name", None) or getattr(ty, "__name__", repr(ty))
+
+    def can_coerce(I, thing, ty, exact=False):
+        tn = type_name(ty)
+        if tn == "float":
+            return is_num(thing)
+        if tn == "Heading":
+            return is_num(thing) or is_orientation(thing) or has_method(I, thing, "toHeading")
+        if tn == "Vector":
+            if is_vector(thing) or has_method(I, thing, "toVector"):
+                return True
+            return isinstance(thing, (tuple, PList, NdArr))
+        if tn == "Orientation":
+            return is_num(thing) or is_orientation(thing) or is_vector(thing) or isinstance(thing, (tuple, PList)) or has_method(I, thing, "toOrientation")
+        if tn in ("numbers.Real", "numbers.Number"):
+            return is_num(thing)
+        if isinstance(ty, ClassVal):
+            return isinstance(thing, PObj) and isinstance(thing.cls, ClassVal) and I.is_subclass(thing.cls, ty)
+        raise PyvcError(f"coercion to {ty!r} not modelled")
+
+    def do_coerce(I, thing, ty, error="wrong type"):
+        tn = type_name(ty)
+        if tn == "float":
+            return thing
+        if tn == "Heading":
+            if is_orientation(thing):
+                return I.get_attr(thing, "yaw")
+            if has_method(I, thing, "toHeading"):
+                return I.call_value(I.get_attr(thing, "toHeading"), [])
+            return thing
+        if tn in ("Vector", "Orientation"):
+            cls = repo_class(f"{V}:{tn}")
+            if isinstance(thing, PObj) and isinstance(thing.cls, ClassVal) and thing.cls is cls:
+                return thing
+            f = I.find_method(cls, "_coerce")
+            try:
+                return I.run_function(f, [thing], {}, None)
+            except Exception as e:
+                from pyvc.interp import SymRaise
+
+                if isinstance(e, SymRaise) and getattr(e.exc.cls, "name", "") == "CoercionFailure":
+                    I.raise_("TypeError", error)
+                raise
+        return thing
+
+    def to_types(I, thing, types, typeError="wrong type"):
+        for ty in I.iterate(types):
+            if can_coerce(I, thing, ty):
+                return do_coerce(I, thing, ty, typeError)
+        I.raise_("TypeError", typeError)
+
+    def underlying(I, thing):
+        if isinstance(thing, PObj):
+            return thing.cls
+        if isinstance(thing, SV):
+            return I.builtins["float"] if thing.isfloat else I.builtins["int"]
+        if isinstance(thing, bool):
+            return I.builtins["bool"]
+        if isinstance(thing, int):
+            return I.builtins["int"]
+        if isinstance(thing, float):
+            return I.builtins["float"]
+        if isinstance(thing, tuple):
+            return I.builtins["tuple"]
+        if isinstance(thing, PList):
+            return I.builtins["list"]
+        return type(thing)
+
+    def is_a(I, thing, ty):
+        if isinstance(ty, tuple):
+            return any(is_a(I, thing, t) for t in ty)
+        tn = type_name(ty)
+        if tn in ("numbers.Real", "numbers.Number", "float"):
+            return is_num(thing) if tn != "float" else (isinstance(thing, float) or (isinstance(thing, SV) and thing.isfloat))
+        if isinstance(ty, ClassVal):
+            return isinstance(thing, PObj) and isinstance(thing.cls, ClassVal) and I.is_subclass(thing.cls, ty)
+        return False
+
+    m = reg.models
+    m[f"{TS}:isA"] = is_a
+    m[f"{TS}:canCoerce"] = can_coerce
+    m[f"{TS}:coerce"] = do_coerce
+    m[f"{TS}:toTypes"] = to_types
+    m[f"{TS}:underlyingType"] = underlying
+    m[f"{TS}:canCoerceType"] = lambda I, a, b: type_name(b) == "float" and a in (I.builtins["float"], I.builtins["int"], float, int)
+    m[f"{TS}:coerceToFloat"] = lambda I, x: x
+    m["scenic.core.distributions:toDistribution"] = lambda I, x: x
+    reg.trust(
+        "type_support.isA/canCoerce/coerce/toTypes/underlyingType (geometry_ops)",
+        "stubs for concrete (non-random) values: numbers are floats/headings, Vectors/tuples/points coerce to Vector (via the real Vector._coerce / toVector), "
+        "numbers/Orientations/vectors/tuples/oriented points coerce to Orientation (via the real Orientation._coerce), otherwise instance-of; random values are C05's concern",
+    )
+
+    # ---- specifier records
+    def specifier_ctor(I, cls, args, kwargs):
+        name, priorities, value = args[0], args[1], args[2]
+        o = PObj(cls)
+        req = set()
+        if isinstance(value, PObj) and value.cls == "DelayedArgument":
+            req = set(value.fields["_requiredProperties"])
+        o.fields.update(name=name, priorities=priorities, value=value, requiredProperties=tuple(sorted(req)), modifiable_props=kwargs.get("modifiable_props"))
+        return o
+
+    def delayed_ctor(I, cls, args, kwargs):
+        props, fn = args[0], args[1]
+        o = PObj("DelayedArgument")
+        o.fields.update(_requiredProperties=tuple(I.iterate(props)), value=fn, _needsLazyEval=True, _isLazy=True)
+        return o
+
+    reg.constructors["scenic.core.specifiers:Specifier"] = specifier_ctor
+    reg.constructors["scenic.core.specifiers:ModifyingSpecifier"] = specifier_ctor
+    reg.constructors["scenic.core.lazy_eval:DelayedArgument"] = delayed_ctor
+    reg.trust("Specifier / DelayedArgument constructors (geometry_ops)", "records: name, priorities, value (dict or delayed function of the object under construction), required properties; resolution is C06's concern")
+
+    # valueInContext / requiredProperties on concrete values: identity / no requirements
+    def value_in_context(I, value, context):
+        if isinstance(value, PObj) and value.cls == "DelayedArgument":
+            return I.call_value(value.fields["value"], [context])
+        return value
+
+    m["scenic.core.lazy_eval:valueInContext"] = value_in_context
+    m["scenic.core.lazy_eval:requiredProperties"] = lambda I, thing: bm.PSet(thing.fields["_requiredProperties"]) if isinstance(thing, PObj) and thing.cls == "DelayedArgument" else bm.PSet()
+    reg.trust("lazy_eval.valueInContext / requiredProperties (geometry_ops)", "stubs: a delayed argument is evaluated by calling its function on the context; concrete values are returned unchanged")
+
+    # ---- Orientation equality = equality of the rotations (q and -q are the same rotation)
+    def orientation_eq(I, a, b):
+        if not is_orientation(b):
+            return NotImplemented
+        ra, rb = rot(a), rot(b)
+        if ra.eq(rb):
+            return True
+        return SV(ra == rb)
+
+    m[f"{V}:Orientation.__eq__"] = orientation_eq
+    reg.trust("Orientation.__eq__ (geometry_ops)", "model: two orientations are equal iff they are the same rotation (the code compares quaternions up to sign)")
+
+    # ---- OrientedPoint._with(position=..., parentOrientation=...): default yaw = pitch = roll = 0
+    def oriented_point_with(I, cls, **props):
+        o = PObj(repo_class(f"{OT}:OrientedPoint"))
+        o.fields.update(props)
+        if "parentOrientation" in props:
+            o.fields.update(yaw=0, pitch=0, roll=0, orientation=props["parentOrientation"])
+            o.fields["heading"] = I.get_attr(props["parentOrientation"], "yaw") if False else None
+            del o.fields["heading"]
+        return o
+
+    m["scenic.core.object_types:Constructible._with"] = oriented_point_with
+    reg.trust("Constructible._with (geometry_ops)", "stub: an OrientedPoint with the given position and parentOrientation and the documented defaults yaw = pitch = roll = 0, hence orientation = parentOrientation")
+
+    # ---- ego(): the real function reads veneer.currentScenario._ego
+    def current_scenario(I):
+        s = PObj("Scenario")
+        s.fields.update(_ego=WORLD.get("ego"), _objects=WORLD.get("objects", ()), _workspace=None)
+        return s
+
+    reg.global_overrides[f"{VEN}:currentScenario"] = current_scenario
+
+    # ---- Point.__getattr__ forwards Vector attributes to self.toVector() (real method interpreted)
+    def forward(name):
+        def hook(I, obj):
+            f = I.find_method(obj.cls, "__getattr__")
+            return I.run_function(f, [obj, name], {}, None)
+
+        return hook
+
+    for cls in ("Point", "OrientedPoint", "Object"):
+        for name in ("angleTo", "azimuthTo", "altitudeTo", "angleWith", "offsetRotated", "offsetLocally", "offsetRadially", "x", "y", "z", "norm", "dot", "applyRotation", "rotatedBy", "coordinates") + (("distanceTo",) if cls != "Object" else ()):
+            reg.attr_hooks[(f"{OT}:{cls}", name)] = forward(name)
+
+    if "builtins" not in bm.EXTRA_MODULES:
+        bm.EXTRA_MODULES["builtins"] = lambda I: bm.NativeModule("builtins", dict(I.builtins))
+
+
+# ---------------------------------------------------------------- scene objects as model values
+
+
+def make_point(I, name, kind="Object", orientation=None, register_inputs=True, dims=True):
+    """A concrete (already sampled) Point / OrientedPoint / Object with symbolic pose and size."""
+    eng = I.eng
+    o = PObj(repo_class(f"{OT}:{kind}"), tag=name)
+    pos = VectorT().fresh(eng, name + ".position", I)
+    if register_inputs:
+        eng.input_syms.append((name + ".position", VectorT(), pos))
+    o.fields.update(position=pos, _needsSampling=False, _needsLazyEval=False, _isLazy=False, _dependencies=(), _requiredProperties=())
+    o.fields["_conditioned"] = o
+    if kind in ("OrientedPoint", "Object"):
+        if orientation is None:
+            t = OrientationT()
+            orientation = t.fresh(eng, name + ".orientation", I)
+            if register_inputs:
+                eng.input_syms.append((name + ".orientation", t, orientation))
+        o.fields["orientation"] = orientation
+    if kind == "Object" and dims:
+        for d in ("width", "length", "height"):
+            v = eng.fresh_real(f"{name}.{d}")
+            eng.assume(compare(">", v, 0))
+            o.fields[d] = v
+            if register_inputs:
+                eng.input_syms.append((f"{name}.{d}", C.Real(), v))
+        o.fields.update(hw=o.fields["width"] / 2, hl=o.fields["length"] / 2, hh=o.fields["height"] / 2)
+        ct = eng.fresh_real(f"{name}.contactTolerance")
+        eng.assume(compare(">=", ct, 0))
+        o.fields["contactTolerance"] = ct
+        if register_inputs:
+            eng.input_syms.append((f"{name}.contactTolerance", C.Real(), ct))
+    return o
+
+
+def spec_value(I, spec, context):
+    """values a Specifier record provides for the object under construction `context` -> PDict"""
+    val = spec.fields["value"]
+    if isinstance(val, PObj) and val.cls == "DelayedArgument":
+        val = call_real(I, val.fields["value"], [context])
+    return val
+
+
+def pd(d, k):
+    if not d.has(k):
+        raise PyvcError(f"specifier does not provide {k}")
+    return d.get(k)
+
+
+# =================================================================================================
+# 2. directional specifiers: left of / right of / ahead of / behind / above / below  X [by D]
+
+DIRECTIONS = {
+    # name: (axis index in X's local frame, sign, dimension property, function name)
+    "LeftSpec": (0, -1, "width"),
+    "RightSpec": (0, +1, "width"),
+    "Ahead": (1, +1, "length"),
+    "Behind": (1, -1, "length"),
+    "Above": (2, +1, "height"),
+    "Below": (2, -1, "height"),
+}
+SYNTAX = {"LeftSpec": "left of", "RightSpec": "right of", "Ahead": "ahead of", "Behind": "behind", "Above": "above", "Below": "below"}
+TARGET_KINDS = ["Object", "OrientedPoint", "Vector"]
+DIST_KINDS = ["none", "scalar", "vector"]
+
+
+def register_directional(reg):
+    install_veneer_stubs(reg)
+
+    def make(fname):
+        axis, sign, dim = DIRECTIONS[fname]
+        name = f"veneer.{fname}"
+
+        def setup(I, env):
+            eng = I.eng
+            WORLD.clear()
+            tk = TARGET_KINDS[eng.choose(3, "target kind")]
+            dk = DIST_KINDS[eng.choose(3, "by")]
+            if tk == "Vector":
+                pos = input_vector(eng, "X.position", I)
+            else:
+                pos = make_point(I, "X", tk)
+            if dk == "none":
+                dist = None
+            elif dk == "scalar":
+                dist = input_real(eng, "D")
+            else:
+                dist = input_vector(eng, "Dvec", I)
+            new = make_point(I, "new", "Object")  # the object under construction (its own size, contact tolerance, orientation)
+            env.vars.update(pos=pos, dist=dist, _tk=tk, _dk=dk, _new=new)
+            eng.input_syms.append(("case", C.Const(None), f"{tk}/{dk}"))
+
+        def post(I, env, outcome):
+            eng = I.eng
+            if outcome[0] != "return":
+                return
+            spec, tk, dk, new, X, dist = outcome[1], env.vars["_tk"], env.vars["_dk"], env.vars["_new"], env.vars["pos"], env.vars["dist"]
+            chk = lambda clause, goal: eng.check(f"{name}#ensures.{clause}", goal)
+            pri = spec.fields["priorities"]
+            chk("specifies_position_with_priority_1", pri.has("position") and pri.get("position") == 1)
+            chk("optionally_specifies_parentOrientation_iff_target_is_oriented", (pri.has("parentOrientation") and pri.get("parentOrientation") == 3) if tk != "Vector" else not pri.has("parentOrientation"))
+            req = set(spec.fields["requiredProperties"])
+            want_req = {dim} | ({"contactTolerance"} if tk == "Object" else set()) | ({"orientation"} if tk == "Vector" else set())
+            chk("depends_on_the_documented_properties", req == want_req)
+            vals = spec_value(I, spec, new)
+            p2 = co(pd(vals, "position"))
+            if tk == "Vector":
+                P, R, dims = co(X), rot(new.fields["orientation"]), (0, 0, 0)
+            else:
+                P, R = co(X.fields["position"]), rot(X.fields["orientation"])
+                dims = tuple(rz(X.fields[d]) for d in ("width", "length", "height")) if tk == "Object" else (0, 0, 0)
+                chk("inherits_the_orientation_of_X", is_orientation(pd(vals, "parentOrientation")) and rot(pd(vals, "parentOrientation")).eq(R))
+            # position of the new object in the local frame of X (of the new object itself when X is a bare vector)
+            L = apply3(INV(R), [a - b for a, b in zip(p2, P)])
+            own = rz(new.fields[dim])
+            # gap between the facing sides of the two bounding boxes along the axis
+            gap = (L[axis] - own / 2) - dims[axis] / 2 if sign > 0 else (-dims[axis] / 2) - (L[axis] + own / 2)
+            if dk == "none":
+                want = rz(new.fields["contactTolerance"]) / 2 if tk == "Object" else z3.RealVal(0)
+                lateral = (0, 0, 0)
+            elif dk == "scalar":
+                want, lateral = rz(dist), (0, 0, 0)
+            else:
+                d = co(dist)
+                want, lateral = d[axis], d
+            chk("gap_between_bounding_boxes_along_the_axis", gap == want)
+            for i, n in enumerate("xyz"):
+                if i != axis:
+                    chk(f"lateral_offset_{n}", L[i] == lateral[i])
+
+        reg.add(
+            C.Contract(
+                f"{VEN}:{fname}",
+                params=dict(pos=C.Const(None), dist=C.Const(None)),
+                setup=setup,
+                post=post,
+                inline_all=True,
+                replay=make_replay_directional(fname),
+                properties=("C07",),
+            )
+        )
+
+    for fname in DIRECTIONS:
+        make(fname)
+
+
+def _scenic_scene(text):
+    import scenic
+
+    sc = scenic.scenarioFromString(text, mode2D=False)
+    scene, _ = sc.generate(maxIterations=50, verbosity=0)
+    return scene
+
+
+def _tup(v):
+    return "(" + ", ".join(repr(float(c)) for c in v) + ")"
+
+
+def make_replay_directional(fname):
+    axis, sign, dim = DIRECTIONS[fname]
+
+    def one(inputs, tk, dk, D, Dvec, e):
+        g = lambda k, default: inputs.get(k, default)
+        P = [float(c) for c in g("X.position", [0, 0, 0])]
+        by = ""
+        if dk == "scalar":
+            by = f" by {D!r}"
+        elif dk == "vector":
+            by = f" by {_tup(Dvec)}"
+        nw, nl, nh = (abs(float(g(f"new.{d}", 1.0))) or 1.0 for d in ("width", "length", "height"))
+        ct = abs(float(g("new.contactTolerance", 0.5))) or 0.5
+        common = "with allowCollisions True, with requireVisible False"
+        dims = (0, 0, 0)
+        new_or = ""
+        if tk == "Object":
+            dims = tuple(abs(float(g(f"X.{d}", 2.0))) or 1.0 for d in ("width", "length", "height"))
+            decl = f"X = new Object at {_tup(P)}, facing {_tup(e)}, with width {dims[0]}, with length {dims[1]}, with height {dims[2]}, {common}\n"
+        elif tk == "OrientedPoint":
+            decl = f"X = new OrientedPoint at {_tup(P)}, facing {_tup(e)}\n"
+        else:
+            decl = f"X = {_tup(P)}\n"
+            new_or = f", facing {_tup(e)}"
+        last = f"n = new Object {SYNTAX[fname]} X{by}{new_or}, with width {nw}, with length {nl}, with height {nh}, with contactTolerance {ct}, {common}"
+        scene = _scenic_scene(f"ego = new Object at (1000, 1000, 1000), {common}\n" + decl + last + "\n")
+        n = scene.objects[-1]
+        from scenic.core.vectors import Orientation
+
+        R = Orientation.fromEuler(*e)
+        if tk != "Vector" and not n.parentOrientation.approxEq(R):
+            return f"`{last}` with X a {tk} facing {e}: the new object's parentOrientation is {n.parentOrientation}, not the orientation of X"
+        L = _local(R, [a - b for a, b in zip(n.position, P)])
+        own = (nw, nl, nh)[axis]
+        gap = (L[axis] - own / 2) - dims[axis] / 2 if sign > 0 else (-dims[axis] / 2) - (L[axis] + own / 2)
+        if dk == "none":
+            want, lateral = (ct / 2 if tk == "Object" else 0.0), (0, 0, 0)
+        elif dk == "scalar":
+            want, lateral = D, (0, 0, 0)
+        else:
+            want, lateral = Dvec[axis], Dvec
+        if not _close(gap, want, 1e-6):
+            return f"`{last}` with X a {tk} at {P} facing {e}: the gap between the bounding boxes along X's local {'xyz'[axis]} axis is {gap:.6g}, expected {want:.6g}"
+        for i in range(3):
+            if i != axis and not _close(L[i], lateral[i], 1e-6):
+                return f"`{last}` with X a {tk} at {P} facing {e}: offset along X's local {'xyz'[i]} axis is {L[i]:.6g}, expected {lateral[i]:.6g}"
+        return None
+
+    def replay(inputs, clause):
+        tk, dk = inputs.get("case", "Object/none").split("/")
+        Ds = [float(inputs.get("D", 1.5)), 1.5, -0.25]
+        Dvecs = [[float(c) for c in inputs.get("Dvec", [1.0, 2.0, 3.0])], [1.0, 2.0, 3.0]]
+        for k, e in enumerate(ROTATION_CATALOGUE):
+            r = one(inputs, tk, dk, Ds[min(k, len(Ds) - 1)] if k < len(Ds) else Ds[1], Dvecs[min(k, 1)], e)
+            if r:
+                return r
+        return None
+
+    return replay
+
+
+# =================================================================================================
+# 3. the facing family
+
+
+def make_context(I, name="new", parent=None, parent_yaw_only=False):
+    """The object under construction as seen by a delayed specifier argument: position and parentOrientation."""
+    eng = I.eng
+    o = PObj(repo_class(f"{OT}:Object"), tag=name)
+    pos = input_vector(eng, f"{name}.position", I)
+    if parent is None:
+        t = OrientationT(yaw_only=parent_yaw_only)
+        parent = t.fresh(eng, f"{name}.parentOrientation", I)
+        eng.input_syms.append((f"{name}.parentOrientation", t, parent))
+    o.fields.update(position=pos, parentOrientation=parent)
+    return o
+
+
+def global_rotation_of(ctx, vals):
+    """rotation of the finished object: parentOrientation * fromEuler(yaw, pitch, roll), unspecified angles default to 0"""
+    g = lambda k: rz(vals.get(k)) if vals.has(k) else z3.RealVal(0)
+    return MUL(rot(ctx.fields["parentOrientation"]), EULER(g("yaw"), g("pitch"), g("roll")))
+
+
+def priorities_are(pri, want):
+    return len(pri.keys) == len(want) and all(pri.has(k) and pri.get(k) == v for k, v in want.items())
+
+
+def register_facing(reg):
+    install_veneer_stubs(reg)
+
+    # ---------------------------------------------------------------- facing <heading | orientation | field>
+    def setup_facing(I, env):
+        eng = I.eng
+        WORLD.clear()
+        kind = ["heading", "orientation", "field"][eng.choose(3, "argument")]
+        ctx = make_context(I)
+        if kind == "heading":
+            h = input_real(eng, "heading")
+            arg, target = h, EULER(rz(h), 0, 0)
+        elif kind == "orientation":
+            t = OrientationT()
+            arg = t.fresh(eng, "target", I)
+            target = rot(arg)
+        else:
+            t = OrientationT()
+            at_pos = t.fresh(eng, "field_value", I)
+            target = rot(at_pos)
+            arg = PObj(repo_class(f"{V}:VectorField"), tag="field")
+            arg.fields.update(name="field", value=BuiltinFn("field.value", lambda pos: at_pos), valueType=repo_class(f"{V}:Orientation"))
+            arg.asked = []
+            arg.fields["value"] = BuiltinFn("field.value", lambda pos: (arg.asked.append(pos), at_pos)[1])
+        env.vars.update(heading=arg, _kind=kind, _ctx=ctx, _target=target)
+        eng.input_syms.append(("case", C.Const(None), kind))
+
+    def post_facing(I, env, outcome):
+        eng = I.eng
+        if outcome[0] != "return":
+            return
+        name = "veneer.Facing"
+        spec, kind, ctx, target = outcome[1], env.vars["_kind"], env.vars["_ctx"], env.vars["_target"]
+        chk = lambda clause, goal: eng.check(f"{name}#ensures.{clause}", goal)
+        chk("specifies_yaw_pitch_roll_with_priority_1", priorities_are(spec.fields["priorities"], dict(yaw=1, pitch=1, roll=1)))
+        req = set(spec.fields["requiredProperties"])
+        chk("depends_on_parentOrientation_and_position_for_fields", req == ({"parentOrientation", "position"} if kind == "field" else {"parentOrientation"}))
+        vals = spec_value(I, spec, ctx)
+        chk("global_orientation_is_the_given_orientation", global_rotation_of(ctx, vals) == target)
+        if kind == "field":
+            asked = env.vars["heading"].asked
+            chk("field_is_evaluated_at_the_object_position", len(asked) >= 1 and all(a is ctx.fields["position"] for a in asked))
+
+    def replay_facing(inputs, clause):
+        from scenic.core.vectors import Orientation
+
+        kind = inputs.get("case", "orientation")
+        for pe in ROTATION_CATALOGUE:
+            for te in ROTATION_CATALOGUE[1:6]:
+                if kind == "heading":
+                    h = float(inputs.get("heading", 0.5)) or 0.5
+                    tgt, want = repr(h), Orientation.fromEuler(h, 0, 0)
+                else:
+                    tgt, want = _tup(te), Orientation.fromEuler(*te)
+                if kind == "field":
+                    text = f"vf = VectorField('f', lambda pos: Orientation.fromEuler{_tup(te)})\nego = new Object at (5, 6, 7), with parentOrientation {_tup(pe)}, facing vf\n"
+                    text = "from scenic.core.vectors import Orientation\n" + text
+                else:
+                    text = f"ego = new Object at (5, 6, 7), with parentOrientation {_tup(pe)}, facing {tgt}\n"
+                o = _scenic_scene(text).objects[0]
+                if not o.orientation.approxEq(want, 1e-9):
+                    return f"`{text.strip().splitlines()[-1]}`: global orientation is {o.orientation}, expected {want}"
+        return None
+
+    reg.add(C.Contract(f"{VEN}:Facing", params=dict(heading=C.Const(None)), setup=setup_facing, post=post_facing, inline_all=True, replay=replay_facing, properties=("C07",)))
+
+    # ---------------------------------------------------------------- facing [directly] (toward | away from) <vector>
+    def make_toward(fname, away, directly):
+        name = f"veneer.{fname}"
+
+        def setup(I, env):
+            WORLD.clear()
+            t = input_vector(I.eng, "target", I)
+            env.vars.update(pos=t, _ctx=make_context(I))
+
+        def post(I, env, outcome):
+            eng = I.eng
+            if outcome[0] != "return":
+                return
+            G.use(eng, "atan2", "trig")
+            spec, ctx = outcome[1], env.vars["_ctx"]
+            chk = lambda clause, goal: eng.check(f"{name}#ensures.{clause}", goal)
+            chk("specifies_the_documented_angles_with_priority_1", priorities_are(spec.fields["priorities"], dict(yaw=1, pitch=1) if directly else dict(yaw=1)))
+            chk("depends_on_position_and_parentOrientation", set(spec.fields["requiredProperties"]) == {"position", "parentOrientation"})
+            vals = spec_value(I, spec, ctx)
+            chk("provides_exactly_the_documented_angles", set(vals.keys) == ({"yaw", "pitch"} if directly else {"yaw"}))
+            t, p = co(env.vars["pos"]), co(ctx.fields["position"])
+            d = [a - b for a, b in zip(p, t)] if away else [a - b for a, b in zip(t, p)]
+            r = apply3(INV(rot(ctx.fields["parentOrientation"])), d)  # line of sight in the parent frame
+            yaw = rz(pd(vals, "yaw"))
+            h = G.hyp_term(eng, [r[0], r[1]])  # horizontal range of the target in the parent frame
+            alpha = ATAN2(r[1], r[0])
+            turns = (yaw - (alpha - HALF_PI)) / TAU
+            chk("yaw_is_the_azimuth_of_the_line_of_sight_in_the_parent_frame", is_turns(yaw - (alpha - HALF_PI)))
+            # geometric meaning (heading 0 = +Y, counter-clockwise): the horizontal line of sight is h * (-sin yaw, cos yaw),
+            # i.e. after turning by yaw about the parent's Z axis the target is straight ahead
+            G.instance(eng, "A2.atan2_polar_form", h, r[1], r[0])
+            G.instance(eng, "A2.sin_cos_quarter_shift", alpha)
+            G.instance(eng, "A2.sin_cos_periodic", alpha - HALF_PI, turns)
+            chk("horizontal_line_of_sight_points_along_heading_yaw_x", r[0] == -h * SIN(yaw))
+            chk("horizontal_line_of_sight_points_along_heading_yaw_y", r[1] == h * COS(yaw))
+            if directly:
+                pitch = rz(pd(vals, "pitch"))
+                rho = G.hyp_term(eng, [h, r[2]])
+                G.instance(eng, "A2.atan2_polar_form", rho, r[2], h)
+                chk("pitch_is_the_elevation_of_the_line_of_sight_in_the_parent_frame", pitch == ATAN2(r[2], h))
+                chk("line_of_sight_is_raised_by_pitch_horizontal_part", h == rho * COS(pitch))
+                chk("line_of_sight_is_raised_by_pitch_vertical_part", r[2] == rho * SIN(pitch))
+
+        def replay(inputs, clause):
+            from scenic.core.vectors import Vector
+
+            t = [float(c) for c in inputs.get("target", [3, 4, 5])]
+            p = [float(c) for c in inputs.get("new.position", [1, 1, 1])]
+            cands = [(t, p), ([3.0, 4.0, 5.0], [1.0, -2.0, 0.5])]
+            syntax = f"facing {'directly ' if directly else ''}{'away from' if away else 'toward'}"
+            for t, p in cands:
+                if _close(t[0], p[0]) and _close(t[1], p[1]):
+                    continue
+                for pe in ROTATION_CATALOGUE:
+                    text = f"ego = new Object at {_tup(p)}, with parentOrientation {_tup(pe)}, {syntax} {_tup(t)}\n"
+                    o = _scenic_scene(text).objects[0]
+                    d = [a - b for a, b in zip(p, t)] if away else [a - b for a, b in zip(t, p)]
+                    if directly:
+                        L = _local(o.orientation, d)  # in the object's own frame the target must be on +Y
+                        n = math.sqrt(sum(c * c for c in d))
+                        if not (_close(L[0], 0, 1e-6) and _close(L[2], 0, 1e-6) and _close(L[1], n, 1e-6)):
+                            return f"`{text.strip()}`: direction in the object's frame is {list(L)}, expected (0, {n}, 0)"
+                    else:
+                        from scenic.core.vectors import Orientation
+
+                        par = Orientation.fromEuler(*pe)
+                        r = _local(par, d)
+                        L = _local(Orientation.fromEuler(o.yaw, 0, 0), r)
+                        if not (_close(L[0], 0, 1e-6) and L[1] >= -1e-9):
+                            return f"`{text.strip()}`: after the yaw {o.yaw} the line of sight in the parent frame is {list(L)}, expected x = 0, y >= 0"
+            return None
+
+        reg.add(C.Contract(f"{VEN}:{fname}", params=dict(pos=C.Const(None)), setup=setup, post=post, inline_all=True, replay=replay, properties=("C07",)))
+
+    make_toward("FacingToward", False, False)
+    make_toward("FacingAwayFrom", True, False)
+    make_toward("FacingDirectlyToward", False, True)
+    make_toward("FacingDirectlyAwayFrom", True, True)
+
+    # ---------------------------------------------------------------- apparently facing H [from V]
+    def setup_apparent(I, env):
+        eng = I.eng
+        WORLD.clear()
+        H = input_real(eng, "heading")
+        use_ego = eng.choose(2, "from?") == 1
+        ctx = make_context(I, parent_yaw_only=True)
+        if use_ego:
+            ego = make_point(I, "ego", "Object")
+            WORLD["ego"] = ego
+            V_, fromPt = ego.fields["position"], None
+        else:
+            V_ = input_vector(eng, "from", I)
+            fromPt = V_
+        p, v = co(ctx.fields["position"]), co(V_)
+        eng.assume(z3.Or(p[0] != v[0], p[1] != v[1]))  # the line of sight must have a direction in the XY plane
+        env.vars.update(heading=H, fromPt=fromPt, _ctx=ctx, _V=V_)
+
+    def post_apparent(I, env, outcome):
+        eng = I.eng
+        if outcome[0] != "return":
+            return
+        name = "veneer.ApparentlyFacing"
+        G.use(eng, "atan2", "trig", "rot.yaw")
+        spec, ctx = outcome[1], env.vars["_ctx"]
+        chk = lambda clause, goal: eng.check(f"{name}#ensures.{clause}", goal)
+        chk("specifies_yaw_with_priority_1", priorities_are(spec.fields["priorities"], dict(yaw=1)))
+        chk("depends_on_position_and_parentOrientation", set(spec.fields["requiredProperties"]) == {"position", "parentOrientation"})
+        vals = spec_value(I, spec, ctx)
+        yaw, H = rz(pd(vals, "yaw")), rz(env.vars["heading"])
+        yawP = rz(ctx.fields["parentOrientation"].yaw_sym)
+        G.use(eng, "atan2.yaw")
+        Vcls = repo_class(f"{V}:Vector")
+        # the line of sight V -> position and the same vector turned by H (computed with the REAL Vector code, so that the
+        # lemma instances below talk about the very terms the carrier builds); hints only -- the goal does not mention them
+        d_vec = call_real(I, I.find_method(Vcls, "__sub__"), [ctx.fields["position"], env.vars["_V"]])
+        dx, dy = co(d_vec)[0], co(d_vec)[1]
+        G.instance(eng, "A2.atan2_of_rotated_vector", H, dx, dy)
+        G.instance(eng, "A2.planar_rotation_fixes_only_the_zero_vector", H, dx, dy)
+        # parent is the planar rotation by yawP: global orientation = yaw(yawP) * yaw(yaw) = yaw(yawP + yaw); its heading is yawP + yaw (mod tau)
+        chk("global_heading_is_the_azimuth_of_the_line_of_sight_plus_H", is_turns((yawP + yaw) - ((ATAN2(dy, dx) - HALF_PI) + H)))
+
+    def replay_apparent(inputs, clause):
+        H = float(inputs.get("heading", 0.0))
+        p = [float(c) for c in inputs.get("new.position", [0, 10, 0])]
+        v = [float(c) for c in inputs.get("from", inputs.get("ego.position", [0, 0, 0]))]
+        par = inputs.get("new.parentOrientation")
+        yawPs = [float(par["yaw"])] if isinstance(par, dict) and "yaw" in par else []
+        for yawP in yawPs + [math.pi / 2, 1.0, -2.0]:
+            for (pp, vv) in ((p, v), ([0.0, 10.0, 0.0], [0.0, 0.0, 0.0])):
+                if _close(pp[0], vv[0]) and _close(pp[1], vv[1]):
+                    continue
+                text = f"ego = new Object at (500, 500, 0)\na = new Object at {_tup(pp)}, with parentOrientation ({yawP!r}, 0, 0), apparently facing {H!r} from {_tup(vv)}\n"
+                o = _scenic_scene(text).objects[1]
+                want = math.atan2(pp[1] - vv[1], pp[0] - vv[0]) - math.pi / 2 + H
+                if not _angle_close(o.heading, want, 1e-6):
+                    return (
+                        f"`new Object at {_tup(pp)}, with parentOrientation ({yawP:.6g}, 0, 0), apparently facing {H:.6g} from {_tup(vv)}`: global heading is {o.heading:.6g} rad, "
+                        f"the line of sight has azimuth {want - H:.6g} so the heading should be {want:.6g} (mod tau)"
+                    )
+        return None
+
+    reg.add(C.Contract(f"{VEN}:ApparentlyFacing", params=dict(heading=C.Const(None), fromPt=C.Const(None)), setup=setup_apparent, post=post_apparent, inline_all=True, replay=replay_apparent, properties=("C07",)))
